@@ -1,6 +1,6 @@
 (* C08 — Individual FS methods are linearizable under concurrent use (generic theorem for methods made of one atomic block, any number of threads, every schedule; and the formal counterpart of the known check-then-act race). *)
-From Coq Require Import List Arith Bool Lia Permutation.
-From PyFS Require Import Conc.Atomic Conc.AtomicProofs.
+From Coq Require Import List NArith Arith Bool Lia Permutation.
+From PyFS Require Import Base.PyStr FS.Tree Glob.LRU Conc.Atomic Conc.AtomicProofs Conc.LruConc.
 Import ListNotations.
 
 Theorem C08_atomic_linearizable :
@@ -48,3 +48,107 @@ Theorem C08_one_block_removedir_linearizable :
          outcome (run sched (race_init, race_pool removedir_atomic_code)).
 Proof. exact @one_block_removedir_linearizable. Qed.
 Print Assumptions C08_one_block_removedir_linearizable.
+
+(* ---- the LRU cache of fs/lrucache.py (the process-wide pattern caches): with its lock (one atomic block per call =
+   lru_set / lru_get of Glob/LRU.v, tied to the real class by harness/h_lru.py) every schedule keeps the capacity bound and is
+   linearizable; the unlocked line-by-line code of the pinned tree is refuted (the defect repaired in /repo c46bb4e) ---- *)
+Theorem C08_lru_locked_bound :
+  forall (V : Type) (size : nat) (progs : list (list (call V))) (c0 : cache V) (sched : list nat),
+    0 < size -> length c0 <= size -> NoDup (keys c0) ->
+    length (fst (run sched (c0, locked_pool size progs))) <= size /\
+    NoDup (keys (fst (run sched (c0, locked_pool size progs)))).
+Proof. exact lru_locked_bound. Qed.
+Print Assumptions C08_lru_locked_bound.
+
+Theorem C08_lru_locked_linearizable :
+  forall (V : Type) (size : nat) (calls : list (call V)) (c0 : cache V) (sched : list nat),
+    finished (snd (run sched (c0, locked_pool size (one_each calls)))) ->
+    exists order : list nat,
+      Permutation order (seq 0 (length calls)) /\
+      fst (seq_run order (c0, locked_pool size (one_each calls)))
+        = fst (run sched (c0, locked_pool size (one_each calls))) /\
+      (forall i : nat, snd (seq_run order (c0, locked_pool size (one_each calls))) i
+                       = snd (run sched (c0, locked_pool size (one_each calls))) i).
+Proof. exact lru_locked_linearizable. Qed.
+Print Assumptions C08_lru_locked_linearizable.
+
+Theorem C08_lru_locked_linearizable_spec :
+  forall (V : Type) (size : nat) (calls : list (call V)) (c0 : cache V) (sched : list nat),
+    finished (snd (run sched (c0, locked_pool size (one_each calls)))) ->
+    exists order : list nat,
+      Permutation order (seq 0 (length calls)) /\
+      fst (run sched (c0, locked_pool size (one_each calls)))
+        = fst (seq_calls size calls order c0) /\
+      map fst (snd (seq_calls size calls order c0)) = order /\
+      (forall (i : nat) (r : result V),
+          In (i, r) (snd (seq_calls size calls order c0)) ->
+          t_out (snd (snd (run sched (c0, locked_pool size (one_each calls))) i)) = [r]).
+Proof. exact lru_locked_linearizable_spec. Qed.
+Print Assumptions C08_lru_locked_linearizable_spec.
+
+Theorem C08_lru_unlocked_over_capacity :
+  length full2 <= 2 /\ NoDup (keys full2) /\
+  finished (snd (run race_sched (full2, unlocked_pool 2 race_progs))) /\
+  outcome2 (run race_sched (full2, unlocked_pool 2 race_progs))
+    = ([(kb, 2%N); (kc, 3%N); (kd, 4%N)], [RNone], [RNone]) /\
+  length (fst (run race_sched (full2, unlocked_pool 2 race_progs))) = 2 + 1 /\
+  length below2 <= 2 /\ NoDup (keys below2) /\
+  finished (snd (run race_sched (below2, unlocked_pool 2 race_progs))) /\
+  outcome2 (run race_sched (below2, unlocked_pool 2 race_progs))
+    = ([(ka, 1%N); (kc, 3%N); (kd, 4%N)], [RNone], [RNone]) /\
+  length (fst (run race_sched (below2, unlocked_pool 2 race_progs))) = 2 + 1.
+Proof. exact lru_unlocked_over_capacity. Qed.
+Print Assumptions C08_lru_unlocked_over_capacity.
+
+Theorem C08_lru_unlocked_bound_refuted :
+  exists (size : nat) (progs : list (list (call N))) (c0 : cache N) (sched : list nat),
+    0 < size /\ length c0 <= size /\ NoDup (keys c0) /\
+    finished (snd (run sched (c0, unlocked_pool size progs))) /\
+    length (fst (run sched (c0, unlocked_pool size progs))) = size + 1.
+Proof. exact lru_unlocked_bound_refuted. Qed.
+Print Assumptions C08_lru_unlocked_bound_refuted.
+
+Theorem C08_lru_unlocked_not_linearizable :
+  forall order : list nat, Permutation [0; 1] order ->
+    outcome2 (seq_run order (full2, unlocked_pool 2 race_progs))
+      <> outcome2 (run race_sched (full2, unlocked_pool 2 race_progs)) /\
+    length (fst (seq_run order (full2, unlocked_pool 2 race_progs))) = 2.
+Proof. exact lru_unlocked_not_linearizable. Qed.
+Print Assumptions C08_lru_unlocked_not_linearizable.
+
+Theorem C08_lru_over_capacity_stays :
+  forall (V : Type) (size : nat) (progs : list (list (call V))) (c0 : cache V) (sched : list nat),
+    size < length c0 ->
+    length (fst (run sched (c0, locked_pool size progs))) = length c0.
+Proof. exact lru_over_capacity_stays. Qed.
+Print Assumptions C08_lru_over_capacity_stays.
+
+Theorem C08_lru_locked_never_shrinks :
+  forall (V : Type) (size : nat) (progs : list (list (call V))) (c0 : cache V) (sched : list nat),
+    length c0 <= length (fst (run sched (c0, locked_pool size progs))).
+Proof. exact lru_locked_never_shrinks. Qed.
+Print Assumptions C08_lru_locked_never_shrinks.
+
+Theorem C08_lru_over_capacity_for_good :
+  forall (progs : list (list (call N))) (sched : list nat),
+    length (fst (run sched (fst (run race_sched (full2, unlocked_pool 2 race_progs)),
+                            locked_pool 2 progs))) = 3.
+Proof. exact lru_over_capacity_for_good. Qed.
+Print Assumptions C08_lru_over_capacity_for_good.
+
+Theorem C08_lru_unlocked_set_alone :
+  forall (V : Type) (size : nat) (k : str) (v : V) (g : cache V) (l : local V),
+    0 < size ->
+    fst (complete (unlocked_code size (CSet k v)) g l) = lru_set size g k v /\
+    t_out (snd (complete (unlocked_code size (CSet k v)) g l)) = t_out l ++ [RNone].
+Proof. exact unlocked_set_alone. Qed.
+Print Assumptions C08_lru_unlocked_set_alone.
+
+Theorem C08_lru_unlocked_get_alone :
+  forall (V : Type) (size : nat) (k : str) (g : cache V) (l : local V),
+    NoDup (keys g) ->
+    (fst (complete (unlocked_code size (CGet k)) g l),
+     t_out (snd (complete (unlocked_code size (CGet k)) g l)))
+    = (fst (apply_call size g (CGet k)), t_out l ++ [snd (apply_call size g (CGet k))]).
+Proof. exact unlocked_get_alone. Qed.
+Print Assumptions C08_lru_unlocked_get_alone.
